@@ -207,6 +207,7 @@ namespace cs
             std::vector<Handle> hs;
             RunHash*            hash;
             std::uint64_t       cases = 0;
+            long                given_up = 0; // elements of a source object that a move ended (as the source reports)
         };
 
         template <class T>
@@ -339,6 +340,7 @@ namespace cs
             auto  alive0 = ct.alive.size();
             auto  live0  = c.env->leaf[0].live.size() + c.env->leaf[1].live.size();
             c.env->log.begin_op(0);
+            c.given_up = 0;
             ct.arm(k);
             bool        injected = false, oom = false, ok = false;
             std::string other;
@@ -376,6 +378,11 @@ namespace cs
                 violate("C11,C20,C09", "release_mismatch", "%s: %s", what, c.env->log.problem.c_str());
             if (!ok)
             {
+                if (ct.alive.size() < alive0)
+                    violate("C20,C11", "foreign_elements_destroyed", "%s failed and destroyed %ld element(s) that it "
+                                                                     "had not constructed (elements of the source "
+                                                                     "object, which still owns them)",
+                            what, long(alive0) - long(ct.alive.size()));
                 if (ct.alive.size() != alive0)
                     violate("C20", "elements_leaked", "%s: %ld element(s) constructed before the failure were not "
                                                       "destroyed",
@@ -402,9 +409,10 @@ namespace cs
                 violate("C20", "exception_swallowed", "%s: failure injected at construction %ld of %ld, no "
                                                       "exception arrived",
                         what, k, elements);
-            if (long(ct.alive.size() - alive0) != elements)
+            // (given_up: elements of the source that a move ended, as the source itself reports)
+            if (long(ct.alive.size()) - long(alive0) != elements - c.given_up)
                 violate("C20", "element_count", "%s: %ld element(s) alive after success, expected %ld", what,
-                        long(ct.alive.size() - alive0), elements);
+                        long(ct.alive.size()) - long(alive0), elements - c.given_up);
             if (c.env->leaf[0].live.size() + c.env->leaf[1].live.size() != live0 + 1)
                 violate("C11", "block_count", "%s: creation made %ld leaf allocation(s), expected exactly one", what,
                         long(c.env->leaf[0].live.size() + c.env->leaf[1].live.size()) - long(live0));
@@ -641,10 +649,22 @@ namespace cs
                         continue;
                     auto   before = h.contents();
                     Handle nh;
-                    // moved elements are new constructions: the source keeps its (moved-from) elements until reset
-                    bool ok = guarded(c, "move with joint", h.elements, 0, true, [&] { nh = h.move_joint(); });
+                    // moved elements are new constructions; the source keeps what it says it keeps (the library's
+                    // arrays keep their moved-from elements until the source is reset). An element's move
+                    // constructor may throw (drawn): the new object is rolled back, the source still owns its own.
+                    long k     = h.elements ? o.arg(1) % (h.elements + 2) : 0;
+                    long given = 0;
+                    bool ok    = guarded(c, "move with joint", h.elements, k, true,
+                                         [&]
+                                         {
+                                             nh    = h.move_joint();
+                                             given = c.given_up = long(before.size()) - long(h.contents().size());
+                                         });
+                    if (k)
+                        stats().hit(ok ? "reach.joint_move_failure_drawn_not_reached" : "reach.joint_move_failed_at_an_element");
                     if (!ok)
                         continue;
+                    c.hs[i].elements -= given;
                     if (nh.contents() != before)
                         violate("C11", "move_differs", "moving into a new joint object changed the contents");
                     nh.layout_check("move with joint");
